@@ -434,6 +434,9 @@ def main(argv):
     except Infra as e:
         print('INFRA:', e)
         return 2
+    except SystemExit as e:
+        print('INFRA: the code under test called sys.exit(%r) inside the engine (e.g. argparse rejecting a generated command line)' % (e.code,))
+        return 2
     except Exception:
         traceback.print_exc()
         print('INFRA: engine crashed')
